@@ -115,9 +115,10 @@ inductive Fmt where
       `decInto`: `keep` = an absent field leaves the receiver's field as it was;
       `reuse` = a present field is decoded into the receiver's existing field. -/
   | opt (keep reuse : Bool) (f : Fmt) : Fmt
-  /-- `a`, then `b` iff `p` holds of the value of `a`
-      (seed suffix of a compressed `EvaluationKey`) -/
-  | tailIf (a : Fmt) (p : Val → Bool) (b : Fmt) : Fmt
+  /-- `a`, then `b` iff `p` holds of the value of `a` (seed suffix of a compressed
+      `EvaluationKey`). `keep` only matters for `decInto`: when the suffix is not read the
+      receiver's suffix field stays as it was. -/
+  | tailIf (keep : Bool) (a : Fmt) (p : Val → Bool) (b : Fmt) : Fmt
 
 /-! ## Encoder (`WriteTo`) and announced size (`BinarySize`) -/
 
@@ -132,7 +133,7 @@ def enc : Fmt → Val → List Nat
   | .vec _ w f, .list vs => leBytes w vs.length ++ (vs.map (enc f)).flatten
   | .opt _ _ _, .none => [0]
   | .opt _ _ f, .some v => 1 :: enc f v
-  | .tailIf a p b, .pair x y =>
+  | .tailIf _ a p b, .pair x y =>
       enc a x ++ (if p x then (match y with | .some s => enc b s | _ => []) else [])
   | _, _ => []
 
@@ -154,7 +155,7 @@ def size : Fmt → Val → Nat
   | .vec _ w f, .list vs => w + sumL (vs.map (size f))
   | .opt _ _ _, .none => 1
   | .opt _ _ f, .some v => 1 + size f v
-  | .tailIf a _ b, .pair x y => size a x + (match y with | .some s => size b s | _ => 0)
+  | .tailIf _ a _ b, .pair x y => size a x + (match y with | .some s => size b s | _ => 0)
   | _, _ => 0
 
 /-! ## Decoder, generic in the byte source -/
@@ -224,7 +225,7 @@ def decG {σ : Type} (rd : Nat → σ → Option (List Nat × σ)) : Fmt → σ 
         | some (v, s2) => some (.some v, s2)
       else some (.none, s1)
     | _ => none
-  | .tailIf a p b, s =>
+  | .tailIf _ a p b, s =>
     match decG rd a s with
     | none => none
     | some (x, s1) =>
@@ -276,8 +277,13 @@ def decMany (f : Fmt) : Nat → List Nat → Option (List Val × List Nat) := de
       are not overwritten STAY (`structs.Map.ReadFrom`, utils/structs/map.go:104-125);
     * `opt keep reuse`: absent ⇒ the receiver's field is kept iff `keep`; present ⇒ decoded
       into the receiver's field iff `reuse`, else into a fresh object;
-    * `tailIf`: the suffix field is only assigned when the suffix is read
-      (`EvaluationKey.ReadFrom`, core/rlwe/keys.go:502-510), otherwise it STAYS.
+    * `tailIf keep`: the suffix field is only assigned when the suffix is read
+      (`EvaluationKey.ReadFrom`, core/rlwe/keys.go:502-510), otherwise it STAYS (iff `keep`).
+  The flags `sticky` / `merge` / `keep` / `reuse` record the code AS IT IS in /repo. If one of
+  the receiver-leak fixes is committed there, flip the corresponding flag in the type table
+  below (`ctMeta`: `.sticky` → `.flag`; `optFlag`: `.opt false true`; `optKeepFresh`:
+  `.opt false false`; `mapOf`: `.vec false`; `evalKey`: `.tailIf false`) so that the `into`
+  tie lines keep following the code; the theorems are stated for all flag values.
   `dec` is `decInto` with a fresh receiver (`Proofs/CodecRecv.lean: decInto_fresh`). -/
 
 def fstR : Val → Val
@@ -382,7 +388,7 @@ def decInto : Fmt → Val → List Nat → Option (Val × List Nat)
         | some (v, s2) => some (.some v, s2)
       else some (if keep then asOpt r else .none, s1)
     | _ => none
-  | .tailIf a p b, r, s =>
+  | .tailIf keep a p b, r, s =>
     match decInto a (fstR r) s with
     | none => none
     | some (x, s1) =>
@@ -390,7 +396,7 @@ def decInto : Fmt → Val → List Nat → Option (Val × List Nat)
         match decInto b .unit s1 with
         | none => none
         | some (y, s2) => some (.pair x (.some y), s2)
-      else some (.pair x (asOpt (sndR r)), s1)
+      else some (.pair x (if keep then asOpt (sndR r) else .none), s1)
 
 /-- formats whose Go decoder does not look at the receiver. -/
 def Clean : Fmt → Prop
@@ -399,7 +405,7 @@ def Clean : Fmt → Prop
   | .pair a b => Clean a ∧ Clean b
   | .vec merge _ f => merge = false ∧ Clean f
   | .opt keep _ f => keep = false ∧ Clean f
-  | .tailIf _ _ _ => False
+  | .tailIf keep a _ b => keep = false ∧ Clean a ∧ Clean b
   | _ => True
 
 /-! ## Well-typed values -/
@@ -417,7 +423,7 @@ def WT : Fmt → Val → Prop
   | .pair a b, v => ∃ x y, v = .pair x y ∧ WT a x ∧ WT b y
   | .vec _ w f, v => ∃ vs, v = .list vs ∧ vs.length < 256 ^ w ∧ ∀ x ∈ vs, WT f x
   | .opt _ _ f, v => v = .none ∨ ∃ x, v = .some x ∧ WT f x
-  | .tailIf a p b, v => ∃ x y, v = .pair x y ∧ WT a x ∧
+  | .tailIf _ a p b, v => ∃ x y, v = .pair x y ∧ WT a x ∧
       ((p x = true ∧ ∃ s, y = .some s ∧ WT b s) ∨ (p x = false ∧ y = .none))
 
 /-- executable check of `WT` (used by the driver and by the non-vacuity examples). -/
@@ -431,7 +437,7 @@ def wtb : Fmt → Val → Bool
   | .vec _ w f, .list vs => decide (vs.length < 256 ^ w) && vs.all (wtb f)
   | .opt _ _ _, .none => true
   | .opt _ _ f, .some x => wtb f x
-  | .tailIf a p b, .pair x y =>
+  | .tailIf _ a p b, .pair x y =>
       wtb a x && (match y with
         | .some s => p x && wtb b s
         | .none => !p x
@@ -533,7 +539,7 @@ def seedLen : Nat := 32
 
 /-- `rlwe.EvaluationKey` (core/rlwe/keys.go:443): gadget ciphertext, then the 32-byte
     seed iff the key is compressed (degree 0). -/
-def evalKey : Fmt := .tailIf gadget gadgetDegreeZero (.raw seedLen)
+def evalKey : Fmt := .tailIf true gadget gadgetDegreeZero (.raw seedLen)
 def relinKey : Fmt := evalKey
 /-- `rlwe.GaloisKey` (core/rlwe/keys.go:628). -/
 def galoisKey : Fmt := .pair u64 (.pair u64 evalKey)
